@@ -32,6 +32,7 @@ RULE = ("seeded world loop executed on one real indicator or a real multi-timefr
 def plan(seed, subbatch):
     cfg = sub_rng(seed, "config")
     kind = "hexital" if cfg.random() < 0.35 else "indicator"
+    chained = False
     base_s, tf, tf_s = planlib.base_and_tf(cfg, 1.0, 12.0, p_none=0.4, allow_finer=False)
     fill = bool(tf) and cfg.random() < 0.4
     if kind == "indicator":
@@ -60,6 +61,7 @@ def plan(seed, subbatch):
                 {"cls": "Counter", "params": {"input_value": sname, "count_value": 100.0}, "common": {}},
             ))
             members = [cons, src] if cfg.random() < 0.5 else [src, cons]
+            chained = True
         hexcfg = {"timeframe_fill": fill}
     if sub_rng(seed, "ctype").random() < 0.15:
         # a candlestick type is a configuration like any other: closed converted candles are final too
@@ -79,12 +81,23 @@ def plan(seed, subbatch):
     else:
         faults, burst, p_empty, _ = planlib.swarm_faults(cfg, base_s, tf_s, halt_buckets=(5, 30))
     start = world.pick_start(cfg, base_s, tf_s)
+    env = planlib.dst_env(sub_rng(seed, "env"), n, base_s)
+    if env:
+        start = env[1]     # the stream straddles an offset change of the zone the process runs in
+    extras = []
+    op_rng = sub_rng(seed, "operator")
+    if subbatch == "faulty" and not chained and op_rng.random() < 0.2:
+        # the same object re-derives its readings mid-history: what it shows for closed candles stays final
+        # (not with a chained pair: a consumer recalculated before its source legitimately has no input)
+        for _ in range(op_rng.randint(1, 2)):
+            extras.append((op_rng.random(), {"op": "recalculate"}))
     pre, ops, fired, rows = planlib.stream_and_schedule(
-        seed, subbatch, n, base_s, start, faults, burst, p_empty,
+        seed, subbatch, n, base_s, start, faults, burst, p_empty, extras,
         max_span_s=(600 * tf_s if tf else None))
+    fired["operator_recalculate"] += len(extras)
     out = [{"op": "new", "preload": pre, "calculate": True}] + ops + [{"op": "check"}]
     return {"format": 1, "property": ID, "seed": seed, "subbatch": subbatch,
-            "config": {"kind": kind, "members": members, "hexital": hexcfg, "base_s": base_s,
+            "config": {"process_tz": env[0] if env else None, "kind": kind, "members": members, "hexital": hexcfg, "base_s": base_s,
                        "utc_offset_min": cfg.choice((None, None, None, 60, 330, -210))},
             "ops": out, "fired": dict(fired)}
 
@@ -167,6 +180,8 @@ def _execute(trace):
                         continue
                     delivered.extend(rows)
                     run.call(filled_size(delivered, tfs) * 4, subject.append, mk_candles(rows))
+                elif kind == "recalculate":
+                    run.call(filled_size(delivered, tfs) * 6, subject.recalculate)
                 elif kind != "check":
                     continue
             except LibError as e:
